@@ -1,23 +1,16 @@
 (** C03: the run-time monitor [Lookup.Check.spec_lookup] holds of what the model answers, on
     every cache satisfying the C12 invariant. *)
-From CM Require Import Lib.Str Lib.Wire Gen.Consts Cache.Model Cache.AMapFacts Cache.Proofs
-  Lookup.Model Lookup.Proofs Lookup.Check.
+From CM Require Import Lib.Str Lib.Wire Gen.Consts Cache.Model Cache.AMapFacts Cache.Proofs Cache.Check
+  Lookup.Model Lookup.Proofs Lookup.ProofsX Lookup.Check.
 From Coq Require Import Arith.
 Open Scope nat_scope.
 Arguments count_str : simpl never.
-
-Definition with_obs (c : lcase) (o : obs) : lcase :=
-  LCase (l_cap c) (l_state c) (l_attrs c) (l_cfg c) (l_sni c) (l_ip c) (l_env c) (l_loaded_complete c) o.
 
 (** the observation corresponding to a model result *)
 Definition obs_of (c : lcase) (r : result) : obs :=
   match r with
   | RErr => OErr
-  | ROk x => OCert (c_hash x)
-               (match alookup (c_hash x) (cache (l_state c)) with
-                | Some _ => at_complete (attr_get (l_attrs c) (c_hash x))
-                | None => l_loaded_complete c
-                end)
+  | ROk x => OCert (c_hash x) (known_complete c (c_hash x))
   end.
 
 Lemma first_listed_some s cands m : first_listed s cands = Some m ->
@@ -43,15 +36,20 @@ Section Spec.
   Variable names_of : hash -> list name.
   Variable c : lcase.
   Let s := l_state c.
-  Let supf := fun h => at_sup (attr_get (l_attrs c) h).
-  Let validf := fun h => at_valid (attr_get (l_attrs c) h).
+  Let supf := supf c.
+  Let validf := validf c.
   Let goodb := fun h => supf h && validf h.
   Notation Inv := (Inv names_of (l_cap c)).
   Notation normalize := (normalize lower is_space).
+  Notation hello_name := (hello_name lower is_space).
 
   Hypothesis HI : Inv s.
+  (** every cached certificate and every certificate in storage is complete (chain and key) *)
   Hypothesis Hcomplete : forall h x, alookup h (cache s) = Some x -> at_complete (attr_get (l_attrs c) h) = true.
-  Hypothesis Hloaded : forall lc, loaded (l_env c) = Some lc -> l_loaded_complete c = true.
+  (** the Names of a cached certificate are the names its leaf carries *)
+  Hypothesis Hnames : forall h x, alookup h (cache s) = Some x -> at_names (attr_get (l_attrs c) h) = c_names x.
+  Hypothesis Hstored : forall k x, alookup k (x_storage (l_envx c)) = Some x ->
+    alookup (c_hash (sd_cert x)) (l_stored_complete c) = Some true.
 
   Lemma matching_hash_in_idx m x : In x (get_all_matching_certs s m) -> In (c_hash x) (idx s m).
   Proof.
@@ -74,71 +72,338 @@ Section Spec.
   (** what comes out of the cache is listed under the name it was found by, and is a supported
       unexpired certificate if one is listed there *)
   Lemma selected_ok m x : select_cert supf validf s m = Some x ->
-    alookup (c_hash x) (cache s) = Some x /\ listed_under s (c_hash x) m = true /\
-    (negb (existsb goodb (idx s m)) || goodb (c_hash x)) = true.
+    alookup (c_hash x) (cache s) = Some x /\
+    listed_under s (c_hash x) m = true /\ really_names c (c_hash x) m = true /\
+    (negb (existsb goodb (idx s m)) || goodb (c_hash x)) = true /\
+    (negb (existsb supf (idx s m)) || supf (c_hash x)) = true.
   Proof.
     intros Hs. destruct (select_some supf validf names_of (l_cap c) s m x HI Hs) as (Hc & Hm & Hin & Hg).
-    split; [exact Hc|]. split.
-    - unfold listed_under. rewrite Hc. apply andb_true_iff. split; apply mem_str_In; [|exact Hm].
-      apply matching_hash_in_idx. exact Hin.
+    assert (H2 : mem_str m (c_names x) = true) by (apply mem_str_In; exact Hm).
+    split; [exact Hc|]. split; [|split; [|split]].
+    - unfold listed_under. rewrite Hc.
+      assert (H1 : mem_str (c_hash x) (idx s m) = true) by (apply mem_str_In, matching_hash_in_idx; exact Hin).
+      rewrite H1, H2. reflexivity.
+    - unfold really_names. rewrite (Hnames _ _ Hc). exact H2.
     - destruct (existsb goodb (idx s m)) eqn:E; [|reflexivity]. cbn [negb orb].
       apply existsb_exists in E. destruct E as (h & Hh & Hgood).
       destruct (idx_hash_matching m h Hh) as (x' & Hx' & <-).
       unfold goodb in *. apply andb_true_iff in Hgood.
       destruct Hg as [G1 G2]; [exists x'; split; [exact Hx' | exact Hgood]|].
       rewrite G1, G2. reflexivity.
+    - destruct (existsb supf (idx s m)) eqn:E; [|reflexivity]. cbn [negb orb].
+      apply existsb_exists in E. destruct E as (h & Hh & Hsup).
+      destruct (idx_hash_matching m h Hh) as (x' & Hx' & <-).
+      unfold Model.select_cert in Hs. eapply default_select_sup; eauto.
   Qed.
 
-  Lemma complete_of_cached x : alookup (c_hash x) (cache s) = Some x ->
-    match alookup (c_hash x) (cache (l_state c)) with
-    | Some _ => at_complete (attr_get (l_attrs c) (c_hash x))
-    | None => l_loaded_complete c
-    end = true.
-  Proof. intros H. fold s. rewrite H. eapply Hcomplete; eauto. Qed.
+  Lemma complete_of_cached x : alookup (c_hash x) (cache s) = Some x -> known_complete c (c_hash x) = true.
+  Proof. intros H. unfold known_complete. fold s. rewrite H. eapply Hcomplete; eauto. Qed.
+
+  Lemma complete_of_loaded cap0 (x : stored) :
+    load_ok lower is_space cap0 s (l_cfg c) (l_ip c) (l_envx c) x -> known_complete c (c_hash (sd_cert x)) = true.
+  Proof.
+    intros (nm & _ & _ & _ & Hl). apply load_from_storage_key in Hl. destruct Hl as [k Hk].
+    unfold known_complete. fold s. destruct (alookup (c_hash (sd_cert x)) (cache s)) as [y|] eqn:E.
+    - eapply Hcomplete; eauto.
+    - rewrite (Hstored k x Hk). reflexivity.
+  Qed.
+
+  Lemma loaded_ok_of_load (x : stored) :
+    load_ok lower is_space (l_cap c) s (l_cfg c) (l_ip c) (l_envx c) x -> sd_servable x = true ->
+    loaded_ok lower is_space c (c_hash (sd_cert x)) = true.
+  Proof.
+    intros (nm & Hn & Hq & Ha & Hl) Hfr. unfold loaded_ok. fold s. rewrite Ha, Hn, Hq, Hl, Hfr, str_eqb_refl. reflexivity.
+  Qed.
+
+  (** the names tried for a match decide when the selector accepts one of them *)
+  Lemma matched_decides sel m x :
+    first_sel sel s (match_names lower is_space c) = Some (m, x) ->
+    from_cache_x lower is_space sel (l_conn c) s (l_cfg c) (l_sni c) (l_ip c) = Some (x, true, m).
+  Proof.
+    unfold match_names, Model.from_cache_x. destruct (is_nil (normalize (l_sni c))).
+    - destruct (l_conn c); cbn [first_sel]; [|discriminate].
+      destruct (sel s (l_ip c)); [|discriminate]. intros H; injection H as <- <-. reflexivity.
+    - intros ->. reflexivity.
+  Qed.
+  Lemma unmatched_defaults sel x b v :
+    first_sel sel s (match_names lower is_space c) = None ->
+    from_cache_x lower is_space sel (l_conn c) s (l_cfg c) (l_sni c) (l_ip c) = Some (x, b, v) ->
+    b = false /\
+    ((is_nil (normalize (l_sni c)) = true /\ is_nil (default_name (l_cfg c)) = false /\
+      v = normalize (default_name (l_cfg c)) /\ sel s v = Some x) \/
+     (is_nil (fallback_name (l_cfg c)) = false /\ v = normalize (fallback_name (l_cfg c)) /\ sel s v = Some x)).
+  Proof.
+    unfold match_names, Model.from_cache_x, try_fallback_x. destruct (is_nil (normalize (l_sni c))).
+    - assert (Hnone : first_sel sel s (if l_conn c then [l_ip c] else []) = None ->
+                      (if l_conn c then sel s (l_ip c) else None) = None).
+      { destruct (l_conn c); cbn [first_sel]; [|reflexivity]. destruct (sel s (l_ip c)); [discriminate | reflexivity]. }
+      intros Hfs. rewrite (Hnone Hfs).
+      destruct (is_nil (default_name (l_cfg c))).
+      + destruct (is_nil (fallback_name (l_cfg c))); [discriminate|].
+        destruct (sel s (normalize (fallback_name (l_cfg c)))) eqn:E; [|discriminate].
+        intros H; injection H as <- <- <-. split; [reflexivity|]. right. auto.
+      + destruct (sel s (normalize (default_name (l_cfg c)))) eqn:Ed.
+        * intros H; injection H as <- <- <-. split; [reflexivity|]. left. auto.
+        * destruct (is_nil (fallback_name (l_cfg c))); [discriminate|].
+          destruct (sel s (normalize (fallback_name (l_cfg c)))) eqn:E; [|discriminate].
+          intros H; injection H as <- <- <-. split; [reflexivity|]. right. auto.
+    - intros ->. destruct (is_nil (fallback_name (l_cfg c))); [discriminate|].
+      destruct (sel s (normalize (fallback_name (l_cfg c)))) eqn:E; [|discriminate].
+      intros H; injection H as <- <- <-. split; [reflexivity|]. right. auto.
+  Qed.
+
+  (** ---- an error only when nothing is available ---- *)
+  Lemma from_cache_none sel conn :
+    from_cache_x lower is_space sel conn s (l_cfg c) (l_sni c) (l_ip c) = None ->
+    ((is_nil (normalize (l_sni c)) && negb (is_nil (default_name (l_cfg c)))) = true ->
+       sel s (normalize (default_name (l_cfg c))) = None) /\
+    (negb (is_nil (fallback_name (l_cfg c))) = true -> sel s (normalize (fallback_name (l_cfg c))) = None).
+  Proof.
+    unfold Model.from_cache_x, try_fallback_x. destruct (is_nil (normalize (l_sni c))).
+    - destruct (if conn then sel s (l_ip c) else None); [discriminate|].
+      destruct (is_nil (default_name (l_cfg c))); cbn [negb andb].
+      + destruct (is_nil (fallback_name (l_cfg c))); cbn [negb]; [intros _; split; discriminate|].
+        destruct (sel s (normalize (fallback_name (l_cfg c)))); [discriminate|]. intros _. split; [discriminate | reflexivity].
+      + destruct (sel s (normalize (default_name (l_cfg c)))); [discriminate|].
+        destruct (is_nil (fallback_name (l_cfg c))); cbn [negb]; [intros _; split; [reflexivity | discriminate]|].
+        destruct (sel s (normalize (fallback_name (l_cfg c)))); [discriminate|]. intros _. split; reflexivity.
+    - destruct (first_sel sel s (normalize (l_sni c) :: wildcard_candidates (normalize (l_sni c)))) as [[m x]|]; [discriminate|].
+      cbn [andb]. destruct (is_nil (fallback_name (l_cfg c))); cbn [negb]; [intros _; split; discriminate|].
+      destruct (sel s (normalize (fallback_name (l_cfg c)))); [discriminate|]. intros _. split; [discriminate | reflexivity].
+  Qed.
+
+  Lemma error_ok_model post :
+    lookup_x lower is_space (self c) (l_conn c) s (l_cap c) (l_cfg c) (l_sni c) (l_ip c) (l_envx c) = (RErr, post) ->
+    error_ok lower is_space c = true.
+  Proof.
+    unfold Model.lookup_x, error_ok, name_bad, loadable, sel_some. fold s.
+    set (sel := self c). intros H.
+    destruct (hello_name (l_cfg c) (l_ip c) (x_idna (l_envx c))) as [nm|] eqn:En.
+    2:{ reflexivity. }
+    destruct (subject_qualifies is_space nm) eqn:Eq; cbn [negb orb]; [|reflexivity].
+    destruct (from_cache_x lower is_space sel (l_conn c) s (l_cfg c) (l_sni c) (l_ip c)) as [[[c0 b] v]|] eqn:Ef.
+    - exfalso. destruct b; [discriminate|]. cbn [negb] in H.
+      destruct (if almost_full (l_cap c) (length (cache s)) then load_from_storage (x_storage (l_envx c)) (x_broken (l_envx c)) nm else None) as [x|];
+        [cbv zeta in H; destruct (sd_servable x); discriminate | discriminate].
+    - destruct (from_cache_none sel (l_conn c) Ef) as [Hd Hf]. cbn [negb] in H.
+      apply negb_true_iff. apply orb_false_iff. split; [apply orb_false_iff; split|].
+      + destruct (is_nil (normalize (l_sni c)) && negb (is_nil (default_name (l_cfg c)))) eqn:E; [|reflexivity].
+        rewrite (Hd eq_refl). reflexivity.
+      + destruct (negb (is_nil (fallback_name (l_cfg c)))) eqn:E; [|reflexivity].
+        rewrite (Hf eq_refl). reflexivity.
+      + destruct (almost_full (l_cap c) (length (cache s))); [|reflexivity]. cbn [andb].
+        destruct (load_from_storage (x_storage (l_envx c)) (x_broken (l_envx c)) nm) as [x|]; [|reflexivity].
+        cbv zeta in H. destruct (sd_servable x); [discriminate | reflexivity].
+  Qed.
+
+  (** ---- default policy ---- *)
+  Lemma first_listed_first_sel (cands : list name) :
+    match first_listed s cands with
+    | Some m => exists x, first_sel (select_cert supf validf) s cands = Some (m, x) /\ select_cert supf validf s m = Some x
+    | None => first_sel (select_cert supf validf) s cands = None
+    end.
+  Proof.
+    destruct (first_listed s cands) as [m|] eqn:E.
+    - apply first_listed_some in E. destruct E as (pre & post & -> & Hpre & Hm).
+      exact (first_select_first supf validf s pre m post Hpre Hm).
+    - apply first_listed_none in E. apply (first_select_none supf validf). exact E.
+  Qed.
+
+  Lemma spec_default : l_policy c = PDefault ->
+    spec_lookup_x_o lower is_space c (obs_of c (fst (run_lookup_x lower is_space c))) = true.
+  Proof.
+    intros Hp.
+    assert (Hself : self c = select_cert supf validf) by (unfold self; rewrite Hp; reflexivity).
+    unfold spec_lookup_x_o, run_lookup_x. rewrite Hp, Hself.
+    fold s. change (Check.supf c) with supf. change (Check.validf c) with validf.
+    set (sel := select_cert supf validf).
+    destruct (lookup_x lower is_space sel (l_conn c) s (l_cap c) (l_cfg c) (l_sni c) (l_ip c) (l_envx c)) as [r post] eqn:Err.
+    cbn [fst snd].
+    pose proof (first_listed_first_sel (match_names lower is_space c)) as Hfl.
+    destruct (first_listed s (match_names lower is_space c)) as [m|].
+    - (* a preferred name is listed: it decides *)
+      destruct Hfl as (x & Hfs & Hs).
+      pose proof (matched_decides sel m x Hfs) as Hf. unfold lookup_x in Err. rewrite Hf in Err.
+      injection Err as <- _. cbn [obs_of].
+      destruct (selected_ok m x Hs) as (Hc & Hl & Hrn & Hg & Hsp).
+      unfold goodb in Hg. rewrite (complete_of_cached x Hc), Hl, Hrn, Hg, Hsp. reflexivity.
+    - (* nothing listed under a preferred name *)
+      destruct r as [|x]; cbn [obs_of].
+      { assert (Hs2 : sel = self c) by (unfold sel; symmetry; exact Hself).
+        rewrite Hs2 in Err. exact (error_ok_model post Err). }
+      destruct (lookup_x_cases _ _ _ _ _ _ _ _ _ _ _ _ Err) as [(b & v & Hf)|(x0 & Hlo & Hfr & -> & _)].
+      + destruct (unmatched_defaults sel x b v Hfl Hf) as (_ & [(Hn & Hd & -> & Hs)|(Hfb & -> & Hs)]).
+        * destruct (selected_ok _ x Hs) as (Hc & Hl & Hrn & _ & _).
+          rewrite (complete_of_cached x Hc), Hn, Hd, Hl, Hrn. reflexivity.
+        * destruct (selected_ok _ x Hs) as (Hc & Hl & Hrn & _ & _).
+          rewrite (complete_of_cached x Hc), Hfb, Hl, Hrn. cbn [negb andb]. rewrite orb_true_r. reflexivity.
+      + rewrite (complete_of_loaded _ x0 Hlo), (loaded_ok_of_load x0 Hlo Hfr). cbn [andb].
+        rewrite !orb_true_r. reflexivity.
+  Qed.
+
+  (** ---- a custom selector ---- *)
+  Lemma spec_custom : l_policy c <> PDefault ->
+    spec_lookup_x_o lower is_space c (obs_of c (fst (run_lookup_x lower is_space c))) = true.
+  Proof.
+    intros Hp. unfold spec_lookup_x_o, run_lookup_x.
+    fold s.
+    set (sel := self c) in *.
+    destruct (lookup_x lower is_space sel (l_conn c) s (l_cap c) (l_cfg c) (l_sni c) (l_ip c) (l_envx c)) as [r post] eqn:Err.
+    cbn [fst snd].
+    assert (Hcase : match l_policy c with PDefault => False | _ => True end) by (destruct (l_policy c); [congruence | exact I ..]).
+    assert (Hgoal :
+      match obs_of c r with
+      | OEmpty => false
+      | OErr => forallb (fun v => match sel s v with Some _ => false | None => true end) (match_names lower is_space c) &&
+                error_ok lower is_space c
+      | OCert h complete =>
+          complete && known_complete c h &&
+          match first_sel sel s (match_names lower is_space c) with
+          | Some (_, x) => str_eqb (c_hash x) h && amem h (cache s)
+          | None =>
+              (is_nil (normalize (l_sni c)) && negb (is_nil (default_name (l_cfg c))) &&
+                 sel_is c (normalize (default_name (l_cfg c))) h && amem h (cache s)) ||
+              (negb (is_nil (fallback_name (l_cfg c))) &&
+                 sel_is c (normalize (fallback_name (l_cfg c))) h && amem h (cache s)) ||
+              loaded_ok lower is_space c h
+          end
+      end = true).
+    { destruct r as [|x]; cbn [obs_of].
+      - (* an error: no name tried for a match was accepted *)
+        destruct (first_sel sel s (match_names lower is_space c)) as [[m x]|] eqn:Efs.
+        + apply matched_decides in Efs. unfold lookup_x in Err. rewrite Efs in Err. discriminate.
+        + apply andb_true_iff. split; [|exact (error_ok_model post Err)].
+          apply (first_sel_none sel) in Efs. apply forallb_forall. intros v Hv.
+          rewrite Forall_forall in Efs. rewrite (Efs v Hv). reflexivity.
+      - destruct (first_sel sel s (match_names lower is_space c)) as [[m x']|] eqn:Efs.
+        + pose proof (matched_decides sel m x' Efs) as Hf. unfold lookup_x in Err. rewrite Hf in Err.
+          injection Err as <- _.
+          assert (Hc : alookup (c_hash x') (cache s) = Some x').
+          { apply first_sel_some in Efs. destruct Efs as (_ & _ & _ & _ & Hs).
+            eapply (sel_policy_in_cache (Check.supf c) (Check.validf c) names_of (l_cap c)); eauto. }
+          rewrite (complete_of_cached x' Hc), str_eqb_refl. cbn [andb].
+          apply amem_alookup. eauto.
+        + destruct (lookup_x_cases _ _ _ _ _ _ _ _ _ _ _ _ Err) as [(b & v & Hf)|(x0 & Hl & Hfr & -> & _)].
+          * destruct (unmatched_defaults sel x b v Efs Hf) as (_ & [(Hn & Hd & -> & Hs)|(Hfb & -> & Hs)]).
+            -- assert (Hc : alookup (c_hash x) (cache s) = Some x)
+                 by (eapply (sel_policy_in_cache (Check.supf c) (Check.validf c) names_of (l_cap c)); eauto).
+               assert (Hm : amem (c_hash x) (cache s) = true) by (apply amem_alookup; eauto).
+               rewrite (complete_of_cached x Hc), Hn, Hd, Hm. unfold sel_is. fold s. fold sel. rewrite Hs, str_eqb_refl.
+               reflexivity.
+            -- assert (Hc : alookup (c_hash x) (cache s) = Some x)
+                 by (eapply (sel_policy_in_cache (Check.supf c) (Check.validf c) names_of (l_cap c)); eauto).
+               assert (Hm : amem (c_hash x) (cache s) = true) by (apply amem_alookup; eauto).
+               rewrite (complete_of_cached x Hc), Hfb, Hm. unfold sel_is. fold s. fold sel. rewrite Hs, str_eqb_refl.
+               cbn [negb andb]. rewrite orb_true_r. reflexivity.
+          * rewrite (complete_of_loaded _ x0 Hl), (loaded_ok_of_load x0 Hl Hfr). cbn [andb].
+            rewrite !orb_true_r. reflexivity. }
+    destruct (l_policy c); [destruct Hcase | exact Hgoal ..].
+  Qed.
+
+  (** the matched answer is among what AllMatchingCertificates reports *)
+  Theorem spec_amc_x_of_model :
+    spec_amc_x_o lower is_space c (obs_of c (fst (run_lookup_x lower is_space c))) (amc_of lower is_space c) = true.
+  Proof.
+    unfold spec_amc_x_o, run_lookup_x. destruct (l_policy c) eqn:Hp; try reflexivity.
+    assert (Hself : self c = select_cert supf validf) by (unfold self; rewrite Hp; reflexivity).
+    rewrite Hself. fold s. set (sel := select_cert supf validf).
+    destruct (lookup_x lower is_space sel (l_conn c) s (l_cap c) (l_cfg c) (l_sni c) (l_ip c) (l_envx c)) as [r post] eqn:Err.
+    cbn [fst]. destruct r as [|x]; cbn [obs_of]; [reflexivity|].
+    pose proof (first_listed_first_sel (match_names lower is_space c)) as Hfl.
+    destruct (first_listed s (match_names lower is_space c)) as [m|]; [|reflexivity].
+    destruct Hfl as (x' & Hfs & Hs).
+    pose proof (matched_decides sel m x' Hfs) as Hf. unfold lookup_x in Err. rewrite Hf in Err.
+    injection Err as <- _.
+    destruct (is_nil (normalize (l_sni c))) eqn:En; [reflexivity|]. cbn [orb].
+    apply mem_str_In. unfold amc_of. apply in_map. fold s. unfold all_matching. apply in_flat_map.
+    exists m. split.
+    - apply first_sel_some in Hfs. destruct Hfs as (pre & post' & Hc & _ & _).
+      unfold match_names in Hc. rewrite En in Hc. unfold name in *. rewrite Hc. apply in_or_app. right. left. reflexivity.
+    - destruct (select_some supf validf names_of (l_cap c) s m x' HI Hs) as (_ & _ & Hin & _). exact Hin.
+  Qed.
+
+  Theorem spec_lookup_x_of_model :
+    spec_lookup_x_o lower is_space c (obs_of c (fst (run_lookup_x lower is_space c))) = true.
+  Proof.
+    destruct (l_policy c) eqn:Ep; [apply spec_default; exact Ep | apply spec_custom; congruence ..].
+  Qed.
+
+  (** ---- the whole of GetCertificate ---- *)
+  Lemma run_lookup_pre : pre_branch c = true -> run_lookup lower is_space c = (RErr, s).
+  Proof.
+    unfold pre_branch, run_lookup, get_certificate. intros H. destruct (l_abort c); [reflexivity|].
+    cbn [orb] in H. rewrite H. reflexivity.
+  Qed.
+  Lemma run_lookup_nopre : pre_branch c = false -> run_lookup lower is_space c = run_lookup_x lower is_space c.
+  Proof.
+    unfold pre_branch, run_lookup, get_certificate, run_lookup_x. intros H. apply orb_false_iff in H.
+    destruct H as [-> ->]. reflexivity.
+  Qed.
 
   Theorem spec_lookup_of_model :
-    spec_lookup lower is_space (with_obs c (obs_of c (run_lookup lower is_space c))) = true.
+    spec_lookup_o lower is_space c (obs_of c (fst (run_lookup lower is_space c))) = true.
   Proof.
-    unfold spec_lookup, run_lookup. cbn [with_obs l_state l_sni l_attrs l_obs l_cfg l_cap l_env l_ip].
-    fold s supf validf goodb.
-    unfold match_names. cbn [with_obs l_sni l_ip].
-    set (n := normalize (l_sni c)).
-    set (r := lookup lower is_space supf validf s (l_cap c) (l_cfg c) (l_sni c) (l_ip c) (l_env c)).
-    destruct (first_listed s (if is_nil n then [l_ip c] else n :: wildcard_candidates n)) as [m|] eqn:Efl.
-    - (* a preferred name is listed: it decides *)
-      assert (Hr : exists x, r = ROk x /\ select_cert supf validf s m = Some x).
-      { apply first_listed_some in Efl. destruct Efl as (pre & post & Hc & Hpre & Hm).
-        destruct (is_nil n) eqn:En.
-        - apply is_nil_true in En. destruct pre as [|p pre]; cbn [app] in Hc.
-          + injection Hc as <- _. destruct (from_cache_ip lower is_space supf validf s (l_cfg c) (l_sni c) (l_ip c) En Hm) as (x & Hf & Hs).
-            exists x. split; [|exact Hs]. unfold r, lookup. rewrite Hf. reflexivity.
-          + injection Hc as _ Hc. destruct pre; discriminate.
-        - apply is_nil_false in En.
-          destruct (from_cache_matched_first lower is_space supf validf s (l_cfg c) (l_sni c) (l_ip c) pre m post En Hc Hpre Hm) as (x & Hf & Hs).
-          exists x. split; [|exact Hs]. unfold r, lookup. rewrite Hf. reflexivity. }
-      destruct Hr as (x & -> & Hs). cbn [obs_of].
-      destruct (selected_ok m x Hs) as (Hc & Hl & Hg).
-      unfold goodb, supf, validf in Hg. rewrite (complete_of_cached x Hc), Hl, Hg. reflexivity.
-    - (* nothing listed under a preferred name *)
-      apply first_listed_none in Efl.
-      destruct r as [|x] eqn:Er; cbn [obs_of]; [reflexivity|].
-      unfold r in Er. destruct (lookup_cases _ _ _ _ _ _ _ _ _ _ _ Er) as [(b & v & Hf)|(Ha & Hl & Hne & Hq & _)].
-      + apply from_cache_some in Hf.
-        destruct Hf as [x m pre post Hn Hc Hpre Hs|x Hn Hs|x Hn Hip Hd Hs|x Hnone Hfb Hs].
-        * exfalso. fold n in Hn, Hc. apply is_nil_false in Hn. rewrite Hn in Efl.
-          unfold name in *. rewrite Hc in Efl. apply Forall_app in Efl. destruct Efl as [_ Efl].
-          inversion Efl as [|? ? Hm _]; subst. apply (proj2 (select_none supf validf s _)) in Hm. congruence.
-        * exfalso. fold n in Hn. rewrite Hn in Efl. cbn [is_nil] in Efl.
-          inversion Efl as [|? ? Hm _]; subst. apply (proj2 (select_none supf validf s _)) in Hm. congruence.
-        * fold n in Hn. destruct (selected_ok _ x Hs) as (Hc & Hl & _).
-          rewrite (complete_of_cached x Hc), Hn, Hl. cbn [is_nil andb].
-          apply is_nil_false in Hd. rewrite Hd. reflexivity.
-        * destruct (selected_ok _ x Hs) as (Hc & Hl & _).
-          rewrite (complete_of_cached x Hc), Hl. apply is_nil_false in Hfb. rewrite Hfb.
-          cbn [negb andb]. rewrite orb_true_r. reflexivity.
-      + fold s in Ha. rewrite Ha, Hl, str_eqb_refl. cbn [andb]. rewrite !orb_true_r, andb_true_r.
-        destruct (alookup (c_hash x) (cache (l_state c))) as [y|] eqn:E.
-        * eapply Hcomplete. fold s in E. exact E.
-        * eapply Hloaded; eauto.
+    unfold spec_lookup_o. destruct (pre_branch c) eqn:E.
+    - rewrite (run_lookup_pre E). reflexivity.
+    - rewrite (run_lookup_nopre E). apply spec_lookup_x_of_model.
+  Qed.
+  Theorem spec_amc_of_model :
+    spec_amc_o lower is_space c (obs_of c (fst (run_lookup lower is_space c))) (amc_of lower is_space c) = true.
+  Proof.
+    unfold spec_amc_o. destruct (pre_branch c) eqn:E; [reflexivity|].
+    rewrite (run_lookup_nopre E). apply spec_amc_x_of_model.
   Qed.
 End Spec.
+
+(** ---- the cache clauses of the monitor ---- *)
+Lemma amap_eqb_refl_l {V} (veq : V -> V -> bool) (m : amap V) :
+  (forall v, veq v v = true) -> NoDup (akeys m) -> amap_eqb veq m m = true.
+Proof.
+  intros Hrefl Hnd. unfold amap_eqb. rewrite Nat.eqb_refl. cbn [andb].
+  apply forallb_forall. intros [k v] Hin. cbn [fst snd].
+  rewrite (In_alookup m k v Hnd Hin). apply Hrefl.
+Qed.
+
+Theorem spec_cache_x_of_model lower is_space c :
+  let nm := names_of_pool (Check.case_certs c) in
+  Inv nm (l_cap c) (l_state c) ->
+  (forall k x, alookup k (x_storage (l_envx c)) = Some x -> wf_cert nm (sd_cert x)) ->
+  spec_cache_x_p c (snd (run_lookup_x lower is_space c)) = true.
+Proof.
+  intros nm HI Hst. unfold spec_cache_x_p. fold nm. cbv zeta.
+  apply andb_true_iff; split; [apply andb_true_iff; split|].
+  - apply inv_b_complete. exact HI.
+  - apply inv_b_complete. unfold run_lookup_x. apply lookup_x_inv; assumption.
+  - destruct (almost_full (l_cap c) (length (cache (l_state c)))) eqn:Ea; [reflexivity|]. cbn [orb].
+    unfold run_lookup_x. rewrite lookup_x_unchanged by exact Ea.
+    unfold state_eqb. apply andb_true_iff. split; apply amap_eqb_refl_l.
+    + intros v. apply cert_eqb_eq. reflexivity.
+    + apply (inv_nodup _ _ _ HI).
+    + intros v. apply strs_eqb_eq. reflexivity.
+    + apply (inv_nodup_idx _ _ _ HI).
+Qed.
+
+Theorem spec_cache_of_model lower is_space c :
+  let nm := names_of_pool (Check.case_certs c) in
+  Inv nm (l_cap c) (l_state c) ->
+  (forall k x, alookup k (x_storage (l_envx c)) = Some x -> wf_cert nm (sd_cert x)) ->
+  spec_cache_p c (snd (run_lookup lower is_space c)) = true.
+Proof.
+  intros nm HI Hst. unfold spec_cache_p. destruct (pre_branch c) eqn:E.
+  - assert (Hr : run_lookup lower is_space c = (RErr, l_state c)).
+    { unfold pre_branch in E. unfold run_lookup, get_certificate. destruct (l_abort c); [reflexivity|].
+      cbn [orb] in E. rewrite E. reflexivity. }
+    rewrite Hr. cbn [snd negb orb].
+    assert (Heq : state_eqb (l_state c) (l_state c) = true).
+    { unfold state_eqb. apply andb_true_iff. split; apply amap_eqb_refl_l.
+      - intros v. apply cert_eqb_eq. reflexivity.
+      - apply (inv_nodup _ _ _ HI).
+      - intros v. apply strs_eqb_eq. reflexivity.
+      - apply (inv_nodup_idx _ _ _ HI). }
+    rewrite Heq, andb_true_r. unfold spec_cache_x_p. fold nm. cbv zeta. rewrite Heq, orb_true_r, andb_true_r.
+    rewrite (inv_b_complete _ _ _ _ _ HI). reflexivity.
+  - assert (Hr : run_lookup lower is_space c = run_lookup_x lower is_space c).
+    { unfold pre_branch in E. apply orb_false_iff in E. destruct E as [E1 E2].
+      unfold run_lookup, get_certificate, run_lookup_x. rewrite E1, E2. reflexivity. }
+    rewrite Hr. cbn [negb orb]. rewrite andb_true_r. apply spec_cache_x_of_model; assumption.
+Qed.
